@@ -141,7 +141,8 @@ def discharge(obligations, facts, timeout_ms=20000, seed=0, second=None, jobs=No
     for ob, t, r in zip(obligations, texts, res):
         out.append({"result": r[0], "model": r[1], "reason": r[2], "secs": round(r[3], 3), "backend": "z3-%s" % z3.get_version_string(), "smt_bytes": len(t), "nfacts": ob.nfacts})
     if second:
-        cmds = {"cvc5": (["/usr/bin/cvc5", "--tlimit=%d" % timeout_ms], timeout_ms / 1000 + 5), "z3-4.8": (["/usr/bin/z3", "-T:%d" % (timeout_ms // 1000)], timeout_ms / 1000 + 5)}
+        t2 = min(timeout_ms, 15000)
+        cmds = {"cvc5": (["/usr/bin/cvc5", "--tlimit=%d" % t2], t2 / 1000 + 5), "z3-4.8": (["/usr/bin/z3", "-T:%d" % (t2 // 1000)], t2 / 1000 + 5)}
         for name in second:
             cmd, to = cmds[name]
             r2 = list(ex.map(_check_cli, [(t, cmd, to) for t in texts]))
